@@ -849,6 +849,22 @@ impl Alphabet {
 				});
 			}
 		}
+		// long unknown bodies: around a plausible internal buffer size and up to the enforced limit
+		let top = enforced_limit(200) as usize;
+		for &l in [8191usize, 8192, 8193, top].iter() {
+			let t = 200u8;
+			let mut w = raw_header(m, t, l as u64);
+			// filler that would parse as frames if the skip stopped early: repeated Ping frames
+			let mut fill = raw_header(m, Type::Ping as u8, 16);
+			fill.extend(vec![0u8; 16]);
+			w.extend((0..l).map(|i| fill[i % fill.len()]));
+			a.items.push(Item {
+				name: format!("UnknownLong:{}:{}", t, l),
+				wire: vec![w; VERSIONS.len()],
+				exp: vec![vec![Exp::Unknown(t)]; VERSIONS.len()],
+				body_len: vec![l; VERSIONS.len()],
+			});
+		}
 		a
 	}
 }
@@ -955,7 +971,7 @@ fn product(sets: &[&[usize]]) -> Vec<Vec<usize>> {
 	out
 }
 
-const SETS_DOC: &str = "item sets: ALL = the whole alphabet (26 known types, with header lists of 0/1/31/32/33/64/65 headers and archive attachments of 0/1/47999/48000/48001/100000 bytes, and every unknown type byte 29..255 with bodies of 0/1/100 bytes: 718 items); CORE = one item per known type (Headers:1, TxHashSetArchive+1) and Unknown:255:1 (27 items); LIGHT = CORE items of at most 400 wire bytes, HEAVY = the rest of CORE; BIG = Headers:0, Headers:32, Headers:33, Headers:65, TxHashSetArchive+0, TxHashSetArchive+48000, TxHashSetArchive+48001; UNK1 = the 227 unknown type bytes with a 1-byte body; SMALL = CORE items of at most 120 wire bytes, Headers:0, Unknown:29:0, Unknown:29:1, Unknown:255:0; TINY = SMALL items of at most 32 wire bytes";
+const SETS_DOC: &str = "item sets: ALL = the whole alphabet (26 known types, with header lists of 0/1/31/32/33/64/65 headers and archive attachments of 0/1/47999/48000/48001/100000 bytes, and every unknown type byte 29..255 with bodies of 0/1/100 bytes: 718 items); CORE = one item per known type (Headers:1, TxHashSetArchive+1) and Unknown:255:1 (27 items); LIGHT = CORE items of at most 400 wire bytes, HEAVY = the rest of CORE; BIG = Headers:0, Headers:32, Headers:33, Headers:65, TxHashSetArchive+0, TxHashSetArchive+48000, TxHashSetArchive+48001; UNK1 = the 227 unknown type bytes with a 1-byte body; SMALL = CORE items of at most 120 wire bytes, Headers:0, Unknown:29:0, Unknown:29:1, Unknown:255:0; TINY = SMALL items of at most 32 wire bytes; ULONG = unknown type 200 with bodies of 8191 / 8192 / 8193 bytes and of exactly the enforced limit, filled with well-formed Ping frames (in pairs with Ping / the LIGHT items, every split point)";
 
 /// The stated finite space, as a list of groups (see SETS_DOC for the item sets).
 fn groups(a: &Alphabet, tier: Tier) -> Vec<Group> {
@@ -964,7 +980,7 @@ fn groups(a: &Alphabet, tier: Tier) -> Vec<Group> {
 	let core: Vec<usize> = (0..n)
 		.filter(|&i| {
 			let nm = &a.items[i].name;
-			(!nm.starts_with("Unknown:") && !nm.starts_with("Headers:") && !nm.starts_with("TxHashSetArchive+"))
+			(!nm.starts_with("Unknown") && !nm.starts_with("Headers:") && !nm.starts_with("TxHashSetArchive+"))
 				|| nm == "Headers:1" || nm == "TxHashSetArchive+1" || nm == "Unknown:255:1"
 		})
 		.collect();
@@ -978,6 +994,9 @@ fn groups(a: &Alphabet, tier: Tier) -> Vec<Group> {
 		small.push(a.idx(s));
 	}
 	let tiny: Vec<usize> = small.iter().cloned().filter(|&i| wl(i) <= 32).collect();
+	let ulong: Vec<usize> = (0..n).filter(|&i| a.items[i].name.starts_with("UnknownLong:")).collect();
+	let all: Vec<usize> = all.into_iter().filter(|i| !ulong.contains(i)).collect();
+	let ping: Vec<usize> = vec![a.idx("Ping")];
 	let one = |s: &[usize]| -> Vec<Vec<usize>> { s.iter().map(|&i| vec![i]).collect() };
 	let v_all: Vec<usize> = (0..VERSIONS.len()).collect();
 	let v_last = vec![VERSIONS.len() - 1];
@@ -995,6 +1014,10 @@ fn groups(a: &Alphabet, tier: Tier) -> Vec<Group> {
 			g.push(Group { name: "pair-heavy", seqs: s, versions: v_ends.clone(), cuts: Cuts::Single });
 			g.push(Group { name: "single-2cuts", seqs: one(&small), versions: v_all.clone(), cuts: Cuts::Pairs });
 			g.push(Group { name: "pair-tiny-2cuts", seqs: product(&[&tiny, &tiny]), versions: v_all.clone(), cuts: Cuts::Pairs });
+			// a long unknown body must be skipped entirely: the next message is read after it
+			let mut s = product(&[&ulong, &ping]);
+			s.extend(product(&[&ping, &ulong]));
+			g.push(Group { name: "pair-unknown-long", seqs: s, versions: v_last.clone(), cuts: Cuts::Single });
 		}
 		Tier::Thorough => {
 			g.push(Group { name: "single", seqs: one(&all), versions: v_all.clone(), cuts: Cuts::Single });
@@ -1006,6 +1029,9 @@ fn groups(a: &Alphabet, tier: Tier) -> Vec<Group> {
 			let mut s = product(&[&unk1, &light]);
 			s.extend(product(&[&light, &unk1]));
 			g.push(Group { name: "pair-unknown", seqs: s, versions: v_all.clone(), cuts: Cuts::Single });
+			let mut s = product(&[&ulong, &light]);
+			s.extend(product(&[&light, &ulong]));
+			g.push(Group { name: "pair-unknown-long", seqs: s, versions: v_ends.clone(), cuts: Cuts::Single });
 			let mut tri = light.clone();
 			for i in small.iter() {
 				if !tri.contains(i) {
